@@ -294,12 +294,16 @@ PROPS = {
             "Foyer.Tomb.open_finds_tail", "Foyer.Tomb.flushed_deletes_survive", "Foyer.Tomb.latestIndex_image",
             "Foyer.Tomb.good_step", "Foyer.Tomb.recovered_image", "Foyer.Tomb.slotIndex_small",
         ],
-        "monitor_props": ["C10"],
+        # the directed store-level campaign (the engine sizes the log from the device; 280-330 flushed removes, two
+        # restarts): there a removed value that comes back (a C01 clause) is a failure of the log, C10's claim
+        "monitor_props": ["C10", "C01"],
         "campaigns": {
-            "quick": [{"name": "tomb-unit", "args": ["cases=150"]}],
-            "thorough": [{"name": "tomb-unit", "args": ["cases=6000"]}],
+            "quick": [{"name": "tomb-unit", "args": ["cases=150"]},
+                      {"name": "hyb-tomblog", "domain": "hyb", "args": ["cases=2", "tomblog=1"]}],
+            "thorough": [{"name": "tomb-unit", "args": ["cases=6000"]},
+                         {"name": "hyb-tomblog", "domain": "hyb", "args": ["cases=12", "tomblog=1"]}],
         },
-        "nontrivial": r"op=reopen recovered=[0-9]",
+        "nontrivial": r"op=reopen",
         "rule": "the real TombstoneLog on an FsDevice + PsyncIoEngine (1-3 log pages = 256-768 slots): random histories of append "
                 "batches (1, a few, 200-300, up to 600 tombstones; strictly increasing sequences) and reopens, mostly below the "
                 "capacity, one in six wrapping on purpose; after every operation the raw partition file is decoded slot by slot and "
@@ -442,8 +446,9 @@ CLAIMS.update({
                     "sequences and fewer tombstones than slots, after every open the tail is right behind the last tombstone and every "
                     "tombstone ever appended is recovered, in order — for any number of pages, batches and restarts. Tied to /repo by "
                     "slot-by-slot comparison of the real TombstoneLog's partition file with the model after every operation",
-            "note": "trusted: Lean kernel; axioms propext/Classical.choice/Quot.sound; harness + driver; unit level only (the hybrid "
-                    "remove -> close/crash -> reopen path rests on the recovery model of C04/C01); wrap-around beyond capacity is "
+            "note": "trusted: Lean kernel; axioms propext/Classical.choice/Quot.sound; harness + driver; unit level plus one directed "
+                    "store-level campaign (the engine's sizing of the log; the general hybrid remove -> close/crash -> reopen path "
+                    "rests on the recovery model of C04/C01); wrap-around beyond capacity is "
                     "exercised by the correspondence but not covered by the theorem",
             "technique": "Lean 4 proof (image invariant by induction over the history) + trace-validating correspondence on raw device bytes"},
 })
